@@ -7,6 +7,7 @@
 //   pass: 0 = limits given at make time only (later calls pass none: persistence) ; 1 = make without limits, limits passed to the first later call only
 #include "tgrid.hpp"
 #include <sstream>
+#include <set>
 
 static std::vector<std::vector<double>> nodes1d;   // per dimension: admissible 1-D nodes (empty = unrestricted)
 static void buildAdmissible(const GridSpec &g, const std::vector<int> &lim){
@@ -29,6 +30,17 @@ static bool admissible(const std::vector<double> &pts, int d){
   return true;
 }
 
+typedef std::set<std::vector<long>> PSet;   // point sets compared on a 1e-9 lattice
+static PSet pset(const std::vector<double> &pts, int d, bool only_admissible){
+  PSet r;
+  for (size_t i=0;i+d<=pts.size();i+=d){
+    std::vector<double> p(pts.begin() + i, pts.begin() + i + d);
+    if (only_admissible && !admissible(p, d)) continue;
+    std::vector<long> k(d); for (int j=0;j<d;j++) k[j] = std::lround(p[j] * 1e9); r.insert(k);
+  }
+  return r;
+}
+
 int main(int argc, char **argv){
   GridSpec g = parseSpec(argv[1]); std::string ops = argv[2]; int pass = atoi(argv[3]);
   int d = g.dims;
@@ -43,6 +55,12 @@ int main(int argc, char **argv){
   buildAdmissible(g, active);
   SymModel model(g.outputs, 1000, -1.0, 1.0, false);
   fpsym_check(admissible(grid.getPoints(), d), "make: every point respects the limits");
+  bool nested_rule = g.family != "global" || !OneDimensionalMeta::isNonNested(grid.getRule());
+  if (pass == 0 && nested_rule){
+    // the limits only cut: the grid is exactly the unlimited selection restricted to the admissible levels; a limit of -1 restricts nothing
+    GridSpec f = g; f.ll.clear(); TasmanianSparseGrid freeg; makeGrid(freeg, f);
+    fpsym_check(pset(grid.getPoints(), d, false) == pset(freeg.getPoints(), d, true), "make: the grid holds exactly the points of the unlimited selection that respect the limits (a limit of -1 leaves the dimension unrestricted)");
+  }
   grid.loadNeededValues(model.values(grid.getNeededPoints(), d));
   if (pass == 1){ std::vector<double> lp = grid.getLoadedPoints(); for (size_t i=0;i+d<=lp.size();i+=d) preexisting.push_back(std::vector<double>(lp.begin() + i, lp.begin() + i + d)); }
   bool first_call = true;
@@ -72,8 +90,18 @@ int main(int argc, char **argv){
     } else if (op == "A"){ grid.setAnisotropicRefinement(type_iptotal, 1, 0, arg);
     } else if (op == "Sg"){ grid.setSurplusRefinement(tol, 0, arg);
     } else if (op == "Sc" || op == "Sf" || op == "Ss"){ grid.setSurplusRefinement(tol, IO::getTypeRefinementString(op == "Sc" ? "classic" : op == "Sf" ? "fds" : "stable"), -1, arg);
-    } else if (op == "Ud"){ grid.updateGrid(g.depth, IO::getDepthTypeString(g.type), g.aw, arg);
-    } else if (op == "U"){ grid.updateGrid(g.depth + 2, IO::getDepthTypeString(g.type), g.aw, arg);
+    } else if (op == "Ud" || op == "U"){
+      int nd = g.depth + (op == "U" ? 2 : 0);
+      PSet before = pset(grid.getLoadedPoints(), d, false);
+      grid.updateGrid(nd, IO::getDepthTypeString(g.type), g.aw, arg);
+      if (nested_rule){
+        GridSpec f = g; f.ll.clear(); f.depth = nd; TasmanianSparseGrid freeg; makeGrid(freeg, f);
+        std::vector<std::vector<double>> keep = preexisting; preexisting.clear();     // the filter below is the plain limits test
+        PSet want = pset(freeg.getPoints(), d, true); preexisting = keep;
+        for (auto &k : before) want.insert(k);
+        PSet got = pset(grid.getLoadedPoints(), d, false); for (auto &k : pset(grid.getNeededPoints(), d, false)) got.insert(k);
+        fpsym_check(got == want, (tag + "update: loaded + needed points are exactly the loaded points plus the admissible points of the unlimited selection").c_str());
+      }
     } else { fprintf(stderr, "bad op\n"); return 9; }
     std::vector<int> stored = grid.getLevelLimits();
     fpsym_check(stored == active, (tag + "getLevelLimits() returns the limits in force").c_str());
